@@ -511,11 +511,17 @@ impl<Octs: Octets> UpdateMessage<Octs> {
             return Ok(Some(AfiSafiType::Ipv4Unicast));
         }
 
-        // Based on MP_UNREACH_NLRI
-        if let Ok(Some(mut iter)) = self.mp_withdrawals() {
-            let res = iter.afi_safi();
-            if iter.next().is_none() {
-                return Ok(Some(res))
+        // Based on MP_UNREACH_NLRI: an empty MP_UNREACH_NLRI in a message
+        // that carries no NLRI elsewhere (RFC 4724, section 2).
+        if self.withdrawals.is_empty()
+            && self.announcements.is_empty()
+            && !self.has_mp_nlri()?
+        {
+            if let Ok(Some(mut iter)) = self.mp_withdrawals() {
+                let res = iter.afi_safi();
+                if iter.next().is_none() {
+                    return Ok(Some(res))
+                }
             }
         }
 
